@@ -29,6 +29,8 @@ from ioflo.base.needing import Need
 PROPERTY = "C21"
 ENGINE = "E1+E2"
 TECHNIQUE = "E2: source->SMT translation of Need.Check over Int, Real and FP(11,53)"
+LEVEL_TEXT = "E2: Need.Check translated from source and proved equal to the written comparison for the six operators over unbounded Int/Real mixes and over FP(11,53) incl. NaN/inf; non-numeric fallback on a concrete table"
+LEVEL_NOTE = "doubles: the written comparison is read in double arithmetic; trusted: astsmt translator (validated each run), z3 5.1; the end-to-end makeNeed part (E1) is separate"
 FUNCTIONS = ["ioflo.base.needing.Need.Check"]
 ASSUMPTIONS = [
     "E2: state, goal, tolerance are all integers/rationals (eight Int/Real mixes, unbounded) or all IEEE doubles; "
